@@ -171,7 +171,7 @@ def discharge(obl, timeout_ms=20000, use_cvc5=True, want_model=False, record=Non
     if sub is not None:
         plan += [("hint-core", sub, c, cfg, 2500) for c, cfg in two]
     for sname, hyps in sl:
-        plan += [(sname, hyps, c, cfg, timeout_ms // 5) for c, cfg in PORTFOLIO]
+        plan += [(sname, hyps, c, cfg, timeout_ms // 5) for c, cfg in (PORTFOLIO if sname == "all" else two)]
     for sname, hyps, cname, cfg, budget in plan:
         verdict, info = _try(hyps, obl.goal, cfg, budget)
         if verdict == "unsat":
